@@ -14,6 +14,7 @@ import shutil
 import subprocess
 import sys
 import tempfile
+import threading
 import time
 from concurrent.futures import ThreadPoolExecutor
 
@@ -47,7 +48,17 @@ class Infra(Exception):
 _scratch = None
 
 
+_scratch_lock = threading.RLock()
+_build_lock = threading.Lock()
+
+
 def scratch():
+    global _scratch
+    with _scratch_lock:
+        return _scratch_locked()
+
+
+def _scratch_locked():
     global _scratch
     if _scratch is None:
         _scratch = tempfile.mkdtemp(prefix="vf-")
@@ -91,6 +102,11 @@ def goenv(extra=None):
 
 def build_harness(race=False):
     """Build /verif/harness against /repo's current working tree (replace directive), hooks on."""
+    with _build_lock:
+        return _build_harness(race)
+
+
+def _build_harness(race):
     out = os.path.join(scratch(), "vfh-race" if race else "vfh")
     if os.path.exists(out):
         return out
@@ -133,14 +149,17 @@ def run_harness(args, env=None, race=False, timeout=3600, check=True):
 # TLC
 
 _spec_copy = None
+_spec_lock = threading.Lock()
 
 
 def spec_copy():
     """TLC litters its working directory: always run in a scratch copy of /verif/spec."""
     global _spec_copy
-    if _spec_copy is None:
-        _spec_copy = os.path.join(scratch(), "spec")
-        shutil.copytree(SPEC, _spec_copy)
+    with _spec_lock:
+        if _spec_copy is None:
+            d = os.path.join(scratch(), "spec")
+            shutil.copytree(SPEC, d)
+            _spec_copy = d
     return _spec_copy
 
 
